@@ -71,6 +71,10 @@ func runC19(c *Ctx) {
 	c.Rule("C19.I", "chain of custody of (backend ID, request ID) and of the stored bytes", 21)
 	c.Rule("C19.K", "key agreement between write and read paths; ordered blob parts", 9)
 	c.Rule("C19.C", "completion flag", 3)
+	c.Rule("C19.S", "cache and datastore keys encode (backend ID, request ID) injectively, same roles on both sides (= C17.S keys)", 5)
+	ruleStoreKeys(c, p, "C19.S")
+	c.Rule("C19.R", "GET response cache: one injective key of (user, URL) for lookup and store", 5)
+	ruleAppResponseCacheKey(c, p, "C19.R")
 	c.Rule("C19.H", "no call hangs: channel capacities, WaitGroup pairing, bounded wait loops", 9)
 	const sp = ModPath + "/app/store"
 
